@@ -412,6 +412,7 @@ type nbClient struct {
 	linger    bool // tcp: keep the connection open, idle, until the shutdown has been judged
 	silent    bool // tcp: connect and never send a byte
 	paced     bool // tcp: one request every 12 s, waiting for each response
+	noread    bool // tcp: sends everything, never reads, stays connected
 	ioDone    *rt.Flag
 	release   *rt.Flag
 	trigger   *rt.Flag // set when this client has sent its triggerAt-th request (progress-triggered Stop)
